@@ -306,21 +306,28 @@ PairValues(ps, k) == IF ps = <<>> THEN <<>>
                      ELSE (IF Head(ps).k = k THEN <<Head(ps).v>> ELSE <<>>) \o PairValues(Tail(ps), k)
 
 \* caller over pattern over base path, per key
+StaticValues(in, k) ==
+  IF k \in Keys(in.pat.query) THEN ValuesFor(in.pat.query, k) ELSE ValuesFor(in.base.query, k)
 ExpectedValues(in, k) ==
-  IF k \in Keys(in.cq) THEN ValuesFor(in.cq, k)
-  ELSE IF k \in Keys(in.pat.query) THEN ValuesFor(in.pat.query, k)
-  ELSE ValuesFor(in.base.query, k)
+  IF k \in Keys(in.cq) THEN ValuesFor(in.cq, k) ELSE StaticValues(in, k)
+
+\* named deviation CallerEmptyListOverrides (allow-both): SetQueryParam(k) without any value makes
+\* the key absent even when it is fixed statically - the code's reading of "overridden"; the
+\* statement does not say whether an empty list overrides, so the static values are accepted too.
+ValuesAllowed(in, k, vs) ==
+  \/ vs = ExpectedValues(in, k)
+  \/ k \in Keys(in.cq) /\ ValuesFor(in.cq, k) = <<>> /\ vs = StaticValues(in, k)
+
+AllKeys(in) == Keys(in.cq) \cup Keys(in.pat.query) \cup Keys(in.base.query)
 
 QueryOK(in, rq) ==   \* rq = URL.RawQuery
   /\ RawQueryValid(rq)
   /\ LET ps == DecodedPairs(rq)
-         ks == {ps[i].k : i \in 1..Len(ps)} \cup Keys(in.cq) \cup Keys(in.pat.query) \cup Keys(in.base.query)
-     IN \A k \in ks : PairValues(ps, k) = ExpectedValues(in, k)
+     IN \A k \in {ps[i].k : i \in 1..Len(ps)} \cup AllKeys(in) : ValuesAllowed(in, k, PairValues(ps, k))
 
 \* the decoded form of a url.Values, for the model-level check: Encode drops keys without values
 ValuesOK(in, vals) ==
-  \A k \in DOMAIN vals \cup Keys(in.cq) \cup Keys(in.pat.query) \cup Keys(in.base.query) :
-     (IF k \in DOMAIN vals THEN vals[k] ELSE <<>>) = ExpectedValues(in, k)
+  \A k \in DOMAIN vals \cup AllKeys(in) : ValuesAllowed(in, k, IF k \in DOMAIN vals THEN vals[k] ELSE <<>>)
 
 \* named deviation RuntimeSchemesShadowOperation: the schemes "offered" are the
 \* runtime's when it has any, else the operation's.
